@@ -194,6 +194,10 @@ func (g *gen) next(w *world) []string {
 			add(misuse/2, "ext", e, "initerror", "notype")
 		}
 		add(fault, "exit", e, []string{"0", "1", "sig9"}[g.r.Intn(3)])
+		if !liveRt && callers > 0 && g.registered[e] {
+			// the runtime process is gone (killed by a reset under way): another local process polls the Runtime API
+			add(misuse, "rt", "next", "via="+e)
+		}
 	}
 	if liveRt {
 		for _, n := range g.ints {
@@ -206,6 +210,11 @@ func (g *gen) next(w *world) []string {
 				add(misuse, "int", n, "register", "S")
 			} else if !blocked[n+".next"] {
 				add(25, "int", n, "next")
+			}
+			if g.registered[n] && s.PrevAgentID(n) != "" {
+				// the identifier this internal extension had under an earlier runtime process
+				add(misuse, "int", n, "nextoldid")
+				add(misuse, "int", n, "exiterror", "Extension.Old", "oldid")
 			}
 		}
 		if len(g.cfg.exts) > 0 {
